@@ -8,6 +8,23 @@ def run(c):
     c.prove(["Properties_C08.v"])      # the model-level part of the contract (see the file header); the run-time part follows
     q = c.tier == "quick"
     session_check.run_sessions(c, (sessions.RS28, sessions.RS2M, sessions.LDPC), {"C08"}, 500 if q else 6000, 700 if q else 10000, big=not q)
+    # sessions released before they did anything: created only, configured (also with refused parameters), configured and queried
+    import ldpc
+    ureqs = []
+    for codec, good, bad in ((1, (5, 3, 8, 0, 0), (0, 3, 8, 0, 0)), (2, (5, 3, 8, 4, 0), (5, 3, 8, 5, 0)), (2, (20, 9, 16, 8, 0), (300, 3, 8, 8, 0)),
+                             (3, (6, 5, 8, 3, 77), (6, 5, 8, 3, 0)), (3, (7, 6, 4, 4, 12345), (7, 2, 4, 3, 1)), (5, (4, 4, 8, 0, 0), (5, 4, 8, 0, 0))):
+        for role in (1, 2, 3):
+            ureqs.append("U %d %d 0 %d %d %d %d %d" % ((codec, role) + good))
+            for stage in (1, 2):
+                ureqs.append("U %d %d %d %d %d %d %d %d" % ((codec, role, stage) + good))
+                ureqs.append("U %d %d %d %d %d %d %d %d" % ((codec, role, stage) + bad))
+    uans, ucr = ldpc.run_dec(c.snap, ureqs)
+    for rq, an in zip(ureqs, uans):
+        if an.startswith(("CRASH", "SKIPPED")):
+            c.violation("early release crashed: %s -> %s" % (rq, an[:200]), "session-crash", {"stream": "dec", "request": rq})
+        elif not an.strip().endswith("LK0"):
+            c.violation("a session released early left heap blocks behind: %s -> %s" % (rq, an.strip()), "leak", {"stream": "dec", "request": rq, "c_answer": an.strip()})
+    c.cov["early_releases"] = len(ureqs)
     c.cov["explanation"] = ("malloc/calloc/realloc/free are wrapped at link time; after of_release_codec_instance and after the application freed exactly what the API says "
                             "it owns (its own buffers, callback buffers, decoded source symbols) the number of live heap blocks must be back to its value before the session; "
                             "double frees are ASan errors; sessions are released after any number of calls, with and without finish, both decoder roles")
